@@ -1,42 +1,50 @@
 #![cfg(kani)]
-//! C18: stream hashing fails closed (nondeterministic reader).
+//! C18: stream hashing fails closed (scripted nondeterministic reader).
 use super::*;
 
-/// A reader whose every `read` is arbitrary within Read's contract: Ok(n) with
-/// n <= min(buf.len(), M) after writing n arbitrary bytes, or an error of arbitrary kind.
-struct AnyReader {
-    delivered: [u8; 8],
-    count: usize,
+/// A reader over a FIXED (symbolic) stream of `total` bytes whose every `read` delivers an
+/// arbitrary non-empty chunk (<= M bytes, <= buf.len()) of what remains, returns Ok(0) only
+/// at the end of the stream, and fails with an arbitrary error kind at read number
+/// `fail_at` (if that read happens).  All choices are made up front, so that the expected
+/// outcome does not depend on how many reads the code under test actually performs.
+struct ScriptedReader {
+    content: [u8; 6],
+    total: usize,
+    chunk: [usize; 8],
+    fail_at: usize, // >= 8: never
+    pos: usize,
     reads: usize,
-    failed: bool,
+    fired: bool,
 }
 
 const M: usize = 2;
-const MAX_READS: usize = 3;
 
-impl Read for AnyReader {
+impl Read for ScriptedReader {
     fn read(&mut self, buf: &mut [u8]) -> std::io::Result<usize> {
+        let i = self.reads;
         self.reads += 1;
-        if self.reads > MAX_READS {
-            return Ok(0); // end of stream (bounds the harness)
-        }
-        let fail: bool = kani::any();
-        if fail {
-            self.failed = true;
+        if i == self.fail_at {
+            self.fired = true;
             return Err(std::io::Error::from(any_kind()));
         }
-        let n: usize = kani::any();
-        kani::assume(n <= M && n <= buf.len());
-        let mut i = 0;
-        while i < M {
-            if i < n {
-                let b: u8 = kani::any();
-                buf[i] = b;
-                self.delivered[self.count] = b;
-                self.count += 1;
-            }
-            i += 1;
+        if self.pos >= self.total || i >= 8 {
+            return Ok(0);
         }
+        let mut n = self.chunk[i];
+        if n > self.total - self.pos {
+            n = self.total - self.pos;
+        }
+        if n > buf.len() {
+            n = buf.len();
+        }
+        let mut k = 0;
+        while k < M {
+            if k < n {
+                buf[k] = self.content[self.pos + k];
+            }
+            k += 1;
+        }
+        self.pos += n;
         Ok(n)
     }
 }
@@ -52,37 +60,61 @@ fn any_kind() -> std::io::ErrorKind {
 }
 
 fn run(hint: Option<u64>) {
-    let mut rd = AnyReader { delivered: [0; 8], count: 0, reads: 0, failed: false };
+    let content: [u8; 6] = kani::any();
+    let total: usize = kani::any();
+    kani::assume(total <= 6);
+    let chunk: [usize; 8] = kani::any();
+    let mut i = 0;
+    while i < 8 {
+        kani::assume(chunk[i] >= 1 && chunk[i] <= M);
+        i += 1;
+    }
+    let fail_at: usize = kani::any();
+    kani::assume(fail_at <= 8);
+    // number of data reads a draining consumer performs, then one more read sees the end
+    let mut data_reads = 0usize;
+    let mut served = 0usize;
+    let mut i = 0;
+    while i < 8 {
+        if served < total {
+            served += if chunk[i] < total - served { chunk[i] } else { total - served };
+            data_reads += 1;
+        }
+        i += 1;
+    }
+    let must_fail = fail_at <= data_reads; // the failing read is among the data_reads + 1 reads
+    let mut rd = ScriptedReader { content, total, chunk, fail_at, pos: 0, reads: 0, fired: false };
     let mut gen = Generator::new();
     if let Some(h) = hint {
         kani::assume(gen.set_fixed_input_size(h).is_ok());
     }
     let r = hash_stream_common(&mut gen, &mut rd);
-    // reference: feed the delivered bytes to a fresh generator in one call
+    // reference: the whole stream fed to a fresh generator in one call
     let mut g2 = Generator::new();
-    g2.update(&rd.delivered[..rd.count]);
+    g2.update(&content[..total]);
     match r {
         Ok(h) => {
-            assert!(!rd.failed);
-            assert!(hint.is_none() || hint == Some(rd.count as u64));
+            assert!(!must_fail); // a read error at any point => no hash
+            assert!(hint.is_none() || hint == Some(total as u64));
             let e = g2.finalize();
-            assert!(e.is_ok() && h.full_eq(&e.unwrap()));
+            assert!(e.is_ok() && h.full_eq(&e.unwrap())); // hash of ALL delivered bytes
             core::mem::forget(h);
         }
         Err(GeneratorOrIOError::IOError(e)) => {
-            assert!(rd.failed);
+            assert!(must_fail && rd.fired);
             core::mem::forget(e);
         }
         Err(GeneratorOrIOError::GeneratorError(e)) => {
             // only a hint that disagrees with the delivered byte count can cause this
-            assert!(!rd.failed);
-            assert!(hint.is_some() && hint != Some(rd.count as u64));
+            assert!(!must_fail);
+            assert!(hint.is_some() && hint != Some(total as u64));
             assert!(e == GeneratorError::FixedSizeMismatch);
         }
     }
-    kani::cover!(rd.failed && rd.reads == 3);
-    kani::cover!(!rd.failed && rd.count == 6);
-    kani::cover!(!rd.failed && rd.count == 0);
+    kani::cover!(must_fail && fail_at == 2 && total >= 3);
+    kani::cover!(!must_fail && total == 6 && data_reads == 6);
+    kani::cover!(!must_fail && total == 0);
+    kani::cover!(must_fail && fail_at == data_reads && total >= 2);
 }
 
 /// hash_stream_common without a hint (what hash_stream does).
